@@ -91,6 +91,12 @@ class Finders:
 
   def _search_duplicate(self, gfa_line):
     if gfa_line.record_type in self.RECORDS_WITH_NAME and \
+        gfa_line.__class__.NAME_FIELD is None:
+      # (a custom record whose type is the one used internally for
+      # placeholders, i.e. a line consisting of a newline, at vlevel 0)
+      raise gfapy.FormatError(
+        "Invalid record type: {}".format(repr(gfa_line.record_type)))
+    if gfa_line.record_type in self.RECORDS_WITH_NAME and \
         isinstance(gfa_line.name, (list, dict)):
       # (e.g. an ID tag of array or JSON type, in a line parsed at vlevel 0)
       raise gfapy.TypeError(
